@@ -46,25 +46,22 @@ fn count<T: PartialEq>(v: &Vec<T>, x: &T) -> usize {
     c
 }
 
-/// diff(S, O), S arbitrary/unbounded, O with <= 2 live entries and <= 2 tombstones:
+/// diff(S, O), S arbitrary/unbounded, O with <= NL live entries and <= ND tombstones:
 /// `changes` lists exactly the live entries of O that S lacks, with O's stamps, once each;
 /// `removals` likewise for O's tombstones; nothing else is listed.
-#[kani::proof]
-#[kani::unwind(10)]
-fn os_diff_list() {
+fn diff_list_contract<const NL: usize, const ND: usize>() {
     let s = any_state();
     let mut o: SetN = OrSWotSet::default();
-    let keys: [Key; 4] = [kani::any(), kani::any(), kani::any(), kani::any()];
-    let ts: [HLCTimestamp; 4] = [any_valid_ts(), any_valid_ts(), any_valid_ts(), any_valid_ts()];
-    kani::assume(keys[0] != keys[1] && keys[0] != keys[2] && keys[0] != keys[3]);
-    kani::assume(keys[1] != keys[2] && keys[1] != keys[3] && keys[2] != keys[3]);
+    let keys: [Key; 3] = [kani::any(), kani::any(), kani::any()];
+    let ts: [HLCTimestamp; 3] = [any_valid_ts(), any_valid_ts(), any_valid_ts()];
+    kani::assume(keys[0] != keys[1] && keys[0] != keys[2] && keys[1] != keys[2]);
     let nl: usize = kani::any();
     let nd: usize = kani::any();
-    kani::assume(nl <= 2 && nd <= 2);
-    // items 0,1 are O's live entries (first nl), items 2,3 its tombstones (first nd)
-    let present = [nl >= 1, nl >= 2, nd >= 1, nd >= 2];
+    kani::assume(nl <= NL && nd <= ND);
+    // items 0,1 are O's live entries (first nl), item 2 its tombstone
+    let present = [nl >= 1, nl >= 2, nd >= 1];
     let mut i = 0;
-    while i < 4 {
+    while i < 3 {
         if present[i] {
             if i < 2 {
                 o.entries.insert(keys[i], ts[i]);
@@ -75,21 +72,23 @@ fn os_diff_list() {
         i += 1;
     }
     // what S holds, per item (touching S in a fixed order)
-    let mut want = [false; 4];
+    let mut want = [false; 3];
     let mut i = 0;
-    while i < 4 {
-        want[i] = present[i] && k_lacks(slot(&s, keys[i]), l_at(&s, ts[i].node()), ts[i].as_u64());
+    while i < 3 {
+        if present[i] {
+            want[i] = k_lacks(slot(&s, keys[i]), l_at(&s, ts[i].node()), ts[i].as_u64());
+        }
         i += 1;
     }
     let (changes, removals) = s.diff(&o);
     let mut i = 0;
     let mut n_changes = 0;
     let mut n_removals = 0;
-    while i < 4 {
+    while i < 3 {
         let item = (keys[i], ts[i]);
         let (mine, other) = if i < 2 { (&changes, &removals) } else { (&removals, &changes) };
         assert!(count(mine, &item) == if want[i] { 1 } else { 0 }, "listed exactly when lacking, with the peer's stamp");
-        assert!(count(other, &item) == 0 || (keys[i], ts[i]) == (keys[(i + 2) % 4], ts[(i + 2) % 4]), "modification vs removal by the peer's state");
+        assert!(count(other, &item) == 0, "a modification if the peer has the key live, a removal if tombstoned");
         if want[i] {
             if i < 2 {
                 n_changes += 1;
@@ -100,8 +99,18 @@ fn os_diff_list() {
         i += 1;
     }
     assert!(changes.len() == n_changes && removals.len() == n_removals, "nothing else is listed");
-    kani::cover!(n_changes == 2 && n_removals == 1);
-    kani::cover!(nl == 2 && n_changes == 0);
+    kani::cover!(n_changes == NL && n_removals == ND, "everything lacking");
+    kani::cover!(nl == NL && nd == ND && n_changes == 0 && n_removals == 0, "nothing lacking");
+}
+#[kani::proof]
+#[kani::unwind(10)]
+fn os_diff_list() {
+    diff_list_contract::<1, 1>();
+}
+#[kani::proof]
+#[kani::unwind(10)]
+fn os_diff_list_3() {
+    diff_list_contract::<2, 1>();
 }
 
 /// purge_old_deletes with <= 3 tombstones (entries and versions arbitrary/unbounded):
